@@ -7,6 +7,7 @@ from vlib import intervals as iv
 from vlib.runner import Stats, Violation, sut
 
 ID = "C09"
+DETERMINISTIC = True  # pure in-memory functions judged by a pure oracle: see runner (a failure seen once counts)
 RULE = (
     "case = two event lists (0..8 each) on a ms grid built as (gap,length) chains with gap,length from {0,1,2,3}+tail, the second list "
     "independent or a perturbation of the first (edges shifted -1/0/+1, split, merged, nested), both shuffled; list one carries ids and labels. "
